@@ -217,6 +217,9 @@ def check(program: Program, run: Run) -> None:
                     # the same duration with every other component passed explicitly as 0 (an explicit zero is not a component)
                     if len(c_) <= 2 or run.tier == "thorough":
                         yield {**{u: 0 for u in units}, **kw}
+                    # ... and with the special units passed explicitly as 0 (`Interval(weeks=0, days=5)`: computed arguments)
+                    if 1 <= len(c_) <= 2:
+                        yield {**kw, "quarters": 0, "weeks": 0}
     npat = 0
     bad_aspects = {}
     for kw in patterns():
@@ -414,6 +417,10 @@ def check(program: Program, run: Run) -> None:
     at = construct({"quarters": 3, "weeks": 2})
     if isinstance(at.get("weeks"), Const) and at.get("weeks").value:
         probs.append("Interval(quarters=3, weeks=2) stores both special units")
+    at = construct({"quarters": 0, "weeks": 3})
+    if not (isinstance(at.get("weeks"), Const) and at.get("weeks").value == 3) or "quarters" in at:
+        probs.append(f"Interval(quarters=0, weeks=3) stores weeks={show(at.get('weeks')) if at.get('weeks') is not None else 'absent'}"
+                     f"{' and quarters=' + show(at['quarters']) if 'quarters' in at else ''}: an explicit zero is not a unit")
     run.ob("C18/R4 quarters / weeks are stored exclusively", "Interval.__init__", not probs, detail="; ".join(probs)[:200] or "3 mixed constructions evaluated", where=init.loc())
     if probs:
         run.finding("C18/special-exclusive:Interval.__init__", "quarters/weeks are no longer stored exclusively: " + probs[0] + " -- they can be mixed with trimmed components", where=init.loc(), rule="R4")
